@@ -198,3 +198,47 @@ Proof. intros files n x s. exact (LocR_index_stmt files n x s). Qed.
 Check C05_declarations_stable : forall files n x s sym d,
     define_loc s sym = Some d -> define_loc (snd (index_stmt files n x s)) sym = Some d.
 Print Assumptions C05_declarations_stable.
+
+(** C05_resolution (partial: classes / defs WITHOUT parent classes, no field access `v.f`, one file without
+    include; the step from the use log to go-to-definition / find-references at positions is
+    C05_goto_newest_entry under token disjointness).
+    For EVERY list of statements of the fragment [fragB_stmts] - class (template arguments with defaults,
+    fields, field lets, body defvars, asserts, dumps), def (named, pasted name, anonymous), multiclass (template
+    arguments, parent multiclasses, any body), defm, defset, defvar, foreach, if/else, let, assert, dump; values
+    with all 50 bang operators - indexed from the initial state with enough fuel: if every use is in scope
+    according to the declarative resolver ScopeSpec, then the list of uses the model records, in order, each with
+    the range of the declaration it was resolved to, is EXACTLY the list the specification computes, and no
+    "not found" diagnostic is emitted.  The specification has no scope stack, no arena, no early return: a scope
+    is an extension of an immutable environment that is forgotten when its construct is left. *)
+Theorem C05_resolution_partial : forall files n l,
+    fragB_stmts l = true ->
+    forallb resolved (fst (spec_stmts 0 env0 l)) = true ->
+    s_bad (snd (iterM (index_stmt files n) l st0)) = false ->
+    rev (s_uses (snd (iterM (index_stmt files n) l st0))) = fst (spec_stmts 0 env0 l) /\
+    nf (snd (iterM (index_stmt files n) l st0)) = [].
+Proof. exact file_resolution. Qed.
+Check C05_resolution_partial : forall files n l,
+    fragB_stmts l = true ->
+    forallb resolved (fst (spec_stmts 0 env0 l)) = true ->
+    s_bad (snd (iterM (index_stmt files n) l st0)) = false ->
+    rev (s_uses (snd (iterM (index_stmt files n) l st0))) = fst (spec_stmts 0 env0 l) /\
+    nf (snd (iterM (index_stmt files n) l st0)) = [].
+Print Assumptions C05_resolution_partial.
+
+(** Non-vacuity (serialisation of the REAL parse of):
+      class A<int p, string q = "x"> { int f = p; defvar v = !add(f, p); let f = v; string g = q; }
+      def d { A x = A<1>; int y = 2; }
+      multiclass M<int a> { def X { int w = a; } }
+      defm Z : M<3>;
+      defset list<A> S = { def e1 { int k = 1; } }
+      foreach i = [1, 2] in { def D#i { int z = i; } }
+      defvar h = S;
+    in the fragment, well-scoped, enough fuel; 13 uses; the last one (`S`) resolves to the defset name. *)
+Definition ex_file : list stmt :=
+  [(SClass (mkId (mkR 0 6 7) [65]) (Some [(TArg TyInt (mkId (mkR 0 12 13) [112]) None); (TArg TyString (mkId (mkR 0 22 23) [113]) (Some (Val (mkR 0 26 29) [(Inner SString [])])))]) [] [(IField TyInt (mkId (mkR 0 37 38) [102]) (Some (Val (mkR 0 41 42) [(Inner (SId (mkId (mkR 0 41 42) [112])) [])]))); (IDefvar (mkId (mkR 0 51 52) [118]) (Val (mkR 0 55 65) [(Inner (SBang XAdd None [(Val (mkR 0 60 61) [(Inner (SId (mkId (mkR 0 60 61) [102])) [])]); (Val (mkR 0 63 64) [(Inner (SId (mkId (mkR 0 63 64) [112])) [])])] (mkR 0 55 65)) [])])); (ILet (mkId (mkR 0 71 72) [102]) (Val (mkR 0 75 76) [(Inner (SId (mkId (mkR 0 75 76) [118])) [])])); (IField TyString (mkId (mkR 0 85 86) [103]) (Some (Val (mkR 0 89 90) [(Inner (SId (mkId (mkR 0 89 90) [113])) [])])))]); (SDef (Some (Val (mkR 0 98 100) [(Inner (SId (mkId (mkR 0 98 99) [100])) [])])) (mkR 0 94 127) [] [(IField (TyClass (mkId (mkR 0 102 103) [65])) (mkId (mkR 0 104 105) [120]) (Some (Val (mkR 0 108 112) [(Inner (SClassVal (mkId (mkR 0 108 109) [65]) [(APos (Val (mkR 0 110 111) [(Inner SInt [])]) (mkR 0 110 111))] (mkR 0 108 112)) [])]))); (IField TyInt (mkId (mkR 0 118 119) [121]) (Some (Val (mkR 0 122 123) [(Inner SInt [])])))]); (SMulticlass (mkId (mkR 0 138 139) [77]) (Some [(TArg TyInt (mkId (mkR 0 144 145) [97]) None)]) [] [(SDef (Some (Val (mkR 0 153 155) [(Inner (SId (mkId (mkR 0 153 154) [88])) [])])) (mkR 0 149 170) [] [(IField TyInt (mkId (mkR 0 161 162) [119]) (Some (Val (mkR 0 165 166) [(Inner (SId (mkId (mkR 0 165 166) [97])) [])])))])]); (SDefm (Some (Val (mkR 0 177 179) [(Inner (SId (mkId (mkR 0 177 178) [90])) [])])) (mkR 0 172 187) [(CRef (mkId (mkR 0 181 182) [77]) [(APos (Val (mkR 0 183 184) [(Inner SInt [])]) (mkR 0 183 184))] (mkR 0 181 185))]); (SDefset (TyList (TyClass (mkId (mkR 0 199 200) [65]))) (mkId (mkR 0 202 203) [83]) [(SDef (Some (Val (mkR 0 212 215) [(Inner (SId (mkId (mkR 0 212 214) [101; 49])) [])])) (mkR 0 208 230) [] [(IField TyInt (mkId (mkR 0 221 222) [107]) (Some (Val (mkR 0 225 226) [(Inner SInt [])])))])]); (SForeach (mkId (mkR 0 240 241) [105]) (FeValue (Val (mkR 0 244 251) [(Inner (SList [(Val (mkR 0 245 246) [(Inner SInt [])]); (Val (mkR 0 248 249) [(Inner SInt [])])]) [])])) [(SDef (Some (Val (mkR 0 260 264) [(Inner (SId (mkId (mkR 0 260 261) [68])) []); (Inner (SId (mkId (mkR 0 262 263) [105])) [])])) (mkR 0 256 279) [] [(IField TyInt (mkId (mkR 0 270 271) [122]) (Some (Val (mkR 0 274 275) [(Inner (SId (mkId (mkR 0 274 275) [105])) [])])))])]); (SDefvar (mkId (mkR 0 288 289) [104]) (Val (mkR 0 292 293) [(Inner (SId (mkId (mkR 0 292 293) [83])) [])]))].
+Example C05_resolution_nonvacuous :
+  fragB_stmts ex_file = true /\ forallb resolved (fst (spec_stmts 0 env0 ex_file)) = true /\
+  s_bad (snd (iterM (index_stmt [] 80) ex_file st0)) = false /\
+  length (fst (spec_stmts 0 env0 ex_file)) = 13%nat /\
+  last (fst (spec_stmts 0 env0 ex_file)) (mkR 0 0 0, None) = (mkR 0 292 293, Some (mkR 0 202 203)).
+Proof. vm_compute. repeat split; reflexivity. Qed.
